@@ -25,10 +25,21 @@ FLIP = {"lt": "gt", "le": "ge", "gt": "lt", "ge": "le"}
 NEGATE = {"lt": "ge", "le": "gt", "gt": "le", "ge": "lt"}
 
 
+_ACC = {}   # atom id -> variable name, for the loop-carried numeric placeholders of the outcome being looked at
+
+
+def _register(out):
+    _ACC.clear()
+    for lr in out.loops:
+        for name, ph in getattr(lr, "placeholders", {}).items():
+            if isinstance(ph, Num) and ph.r.single_atom() is not None:
+                _ACC[ph.r.single_atom().id] = name
+
+
 def _acc_name(r: Rat) -> Optional[str]:
     a = r.single_atom() if isinstance(r, Rat) else None
-    if a is not None and a.kind == "sym" and a.name.startswith("#acc."):
-        return a.name[5:]
+    if a is not None and a.id in _ACC:
+        return _ACC[a.id]
     return None
 
 
@@ -75,6 +86,7 @@ class SymbolicSelection:
 
     def __init__(self, out):
         self.out = out
+        _register(out)
         self.decisions = []      # (op, L, acc name, better)
         for cond, taken in out.trace:
             nd = normalise_decision(cond, taken)
@@ -234,6 +246,7 @@ def check_unrolled(ck, f, outs, data_param, suffixes):
         b_cur = None
         best = None
         ok_path = True
+        _register(o)
         for cond, taken in o.trace:
             nd = normalise_decision(cond, taken)
             if nd is None:
